@@ -1,4 +1,4 @@
-HOOK_COMMITS = ["74bf6ff", "82c1591"]
+HOOK_COMMITS = ["74bf6ff", "82c1591", "9aba3ab"]
 
 ALL = ["C%02d" % i for i in range(1, 21)]
 
@@ -15,6 +15,18 @@ MAINT_NOTE = ("Trusted: Coq kernel; extraction; OCaml replayer; Go harness; the 
 MAINT_TECH = "Coq proof (loop-step lemmas, invariants) over an executable policy/wheel model + closed-loop model/implementation replay with internal-state audit"
 
 TEXTS = {
+    "C16": dict(text="Executable Coq model of the chunked MPSC queue (push split into reserve/publish) compared with the implementation after every call over all capacity pairs and growth steps, including "
+                     "producer-parked states; Coq lemmas: refusal only when full, empty only when caught up, the consumer waits for a reserved slot, no phantom element. The all-sequences FIFO "
+                     "refinement is not yet a Coq theorem (C16_seq_fifo pending; theorems named _partial).",
+               design_ref="DESIGN.md section 5, C16",
+               note="Trusted: Coq kernel, extraction, OCaml replayer, Go harness, hook verifPoint in mpsc.go (tag verif). Interleavings beyond one parked producer are covered by free-running oracle checks only.",
+               technique="executable Coq model + correspondence replay with hook-parked schedules; Coq lemmas on push/pop (protocol-level proof partial)"),
+    "C17": dict(text="Coq theorem over a small-step model of ring.add/drainTo (one step per atomic access): for every schedule and any number of producers the invariant holds, hence delivered is a prefix of "
+                     "recorded (nothing unrecorded, nothing twice), at most 16 entries are held, and a drain at quiescence delivers everything recorded. The model is tied to the code by executing macro "
+                     "schedules (including producers parked between CAS and store) on the real ring and comparing status, drained values, head, tail and slot occupancy; the striped table is covered by implementation oracles.",
+               design_ref="DESIGN.md section 5, C17",
+               note="Trusted: Coq kernel, extraction, OCaml replayer, Go harness, hook verifPoint in ring.go (tag verif). Modelled: sync/atomic as sequentially consistent steps. The stripe table (expandOrRetry) is not in the Coq model.",
+               technique="Coq proof: invariant by induction over all schedules of a small-step protocol model + schedule execution on the implementation through yield points"),
     "C04": dict(text="Coq theorems on the W-TinyLFU eviction loop: a node is evicted for size only while total weight > maximum, never with weight 0; the loop exits only with the bound restored or both "
                      "cursors exhausted; an oversized node is evicted by the task that introduces it. The implementation's policy is replayed in a closed loop by the extracted model (all deques/counters compared "
                      "after every operation, every eviction predicted) and the bound is checked on the implementation at every quiescent point, including after SetMaximum.",
